@@ -498,9 +498,15 @@ fn apply_extra(doc: &mut Y, extra: &Extra) -> String {
 fn sanitise(doc: &mut Y, scratch: &str) {
     if let Some(Y::Mapping(al)) = doc.get_mut("accessLog") {
         if let Some(p) = al.get_mut("path") {
-            if let Y::String(s) = p {
-                let name: String = s.chars().filter(|c| c.is_ascii_alphanumeric()).take(20).collect();
-                *s = format!("{}/log-{}", scratch, name);
+            // any scalar can end up as a file name (a retyped number too): keep all of them inside the scratch directory
+            let name: Option<String> = match &*p {
+                Y::String(s) => Some(s.chars().filter(|c| c.is_ascii_alphanumeric()).take(20).collect()),
+                Y::Number(n) => Some(n.to_string().chars().filter(|c| c.is_ascii_alphanumeric()).take(20).collect()),
+                Y::Bool(b) => Some(b.to_string()),
+                _ => None,
+            };
+            if let Some(name) = name {
+                *p = Y::String(format!("{}/log-{}", scratch, name));
             }
         }
     }
